@@ -80,6 +80,7 @@ func C05forms(p *load.Program, run *report.Run) {
 			run.OK("stream-record-space", "circuit.Streaming.Garble/NeedSpace", p.Rel(garbleGate.Pos()), fmt.Sprintf("largest record %d bytes, %d reserved", maxRecord, reserve))
 		}
 	}()
+	narrowFlags := map[string]string{}
 	for op := 0; op < 5; op++ {
 		for pa := 0; pa < 2; pa++ {
 			for pb := 0; pb < 2; pb++ {
@@ -92,6 +93,28 @@ func C05forms(p *load.Program, run *report.Run) {
 				leaves, err := fpai.Explore(map[string]bool{}, func(assume map[string]bool) error {
 					in := newInterp(pa == 1, pb == 1)
 					in.Assume = assume
+					// a flag of the session that selects the narrow encoding for the whole circuit: the narrowing keeps
+					// the index if the flag is set only when every index of the circuit fits (narrowFlagInvariant)
+					in.NarrowOK = func(in *fpai.Interp, sym string, max int64) bool {
+						if max < 0xffff {
+							return false
+						}
+						for k, v := range in.Assume {
+							if !v || !strings.HasPrefix(k, "Streaming.") {
+								continue
+							}
+							f := strings.TrimPrefix(k, "Streaming.")
+							why, seen := narrowFlags[f]
+							if !seen {
+								why = narrowFlagInvariant(p, f)
+								narrowFlags[f] = why
+							}
+							if why == "" {
+								return true
+							}
+						}
+						return false
+					}
 					aw := &fpai.Obj{V: fpai.StructV{F: []fpai.Val{fpai.Lab("a0"), fpai.Lab("a0", "r")}}}
 					bw := &fpai.Obj{V: fpai.StructV{F: []fpai.Val{fpai.Lab("b0"), fpai.Lab("b0", "r")}}}
 					var outWire fpai.Val
@@ -288,6 +311,14 @@ func C05forms(p *load.Program, run *report.Run) {
 					}
 				}
 			}
+		}
+	}
+	for f, why := range narrowFlags {
+		key := "circuit.Streaming." + f + "/selects the 16-bit encoding"
+		if why != "" {
+			run.Violate("stream-record-codec", key, p.Rel(garbleGate.Pos()), "the flag selects 16-bit wire indices for a whole circuit, but "+why, nil)
+		} else {
+			run.OK("stream-record-codec", key, p.Rel(garbleGate.Pos()), "set only when every permanent index and every circuit wire number of the circuit fits 16 bits")
 		}
 	}
 	run.Floor("stream-garbler-leaves", 100)
